@@ -20,6 +20,10 @@ pub enum Mutation {
     ZerosBeforeEnd(u8, u8),
     /// replace the final 1-3 payload bytes before the end sequence by 0x1b (re-alignment look-alike)
     TailEsc(u8),
+    /// replace the checksum by a look-alike of the right one: 0 = its two bytes exchanged, 1 = bitwise
+    /// complement (no final xor), 2 = CRC of the frame without its start sequence, 3 = CRC of the payload
+    /// bytes only, 4 = CRC-16/X.25 run without the end sequence, 5 = the right checksum + 1
+    CrcLookalike(u8),
 }
 
 #[derive(Debug, Clone, PartialEq)]
@@ -99,6 +103,20 @@ pub fn mutate_frame(frame: &[u8], m: &Mutation, refix: bool) -> Vec<u8> {
             for i in 0..k {
                 f[end - 1 - i] = 0x1b;
             }
+        }
+        Mutation::CrcLookalike(kind) => {
+            let right = crc16_x25(&f[..n - 2]);
+            let c = match kind % 6 {
+                0 => right.swap_bytes(),
+                1 => !right,
+                2 => crc16_x25(&f[8..n - 2]),
+                3 => crc16_x25(&f[8..end]),
+                4 => crc16_x25(&f[..end]),
+                _ => right.wrapping_add(1),
+            };
+            f[n - 2] = (c & 0xff) as u8;
+            f[n - 1] = (c >> 8) as u8;
+            return f;
         }
     }
     if refix && f.len() >= 2 {
@@ -198,6 +216,7 @@ pub fn mutation() -> impl Strategy<Value = Mutation> {
         1 => Just(Mutation::DupStart),
         3 => (0u8..9, 0u8..8).prop_map(|(k, p)| Mutation::ZerosBeforeEnd(k, p)),
         2 => (1u8..4).prop_map(Mutation::TailEsc),
+        3 => (0u8..6).prop_map(Mutation::CrcLookalike),
     ]
 }
 
